@@ -249,7 +249,7 @@ func exec(s *Scenario, guard bool) (ms []core.Mismatch) {
 			}
 		}
 	}
-	if s.Space == "tri" { // deterministic space: known findings are recorded per input
+	if s.Space == "tri" || s.Space == "fixed" { // deterministic spaces: known findings are recorded per input
 		for i := range ms {
 			ms[i].Key = ms[i].Signature + "|" + s.psvg() + "|" + s.qsvg() + "|" + s.Emb.Name
 		}
@@ -831,11 +831,73 @@ func islandScene(r *rand.Rand) (latgeo.LPath, latgeo.LPath) {
 	return mk(1), mk(0)
 }
 
+// fixedScene: the fixed-seed shared-edge family (the same generator as C02's): P = two contours sharing an edge in the
+// same or in opposite directions, or one contour doubling back over its own edge; Q = one to three thin triangles whose
+// long edges cross the shared stretch at non-lattice points. The scenes do not depend on VERIF_SEED: failures of the
+// unchanged tree in this family are known findings PER INPUT, so that a change failing on any other scene is reported
+// although the overlap class is not clean.
+func cross2(a, b, c [2]int) int { return (b[0]-a[0])*(c[1]-a[1]) - (b[1]-a[1])*(c[0]-a[0]) }
+func properCross2(a, b, u, v [2]int) bool {
+	d1, d2, d3, d4 := cross2(a, b, u), cross2(a, b, v), cross2(u, v, a), cross2(u, v, b)
+	return d1 != 0 && d2 != 0 && d3 != 0 && d4 != 0 && (d1 > 0) != (d2 > 0) && (d3 > 0) != (d4 > 0)
+}
+func fixedScene(r *rand.Rand) (latgeo.LPath, latgeo.LPath) {
+	const n = 16
+	pt := func(even bool) [2]int {
+		if even {
+			return [2]int{2 * r.Intn(n/2+1), 2 * r.Intn(n/2+1)}
+		}
+		return [2]int{r.Intn(n + 1), r.Intn(n + 1)}
+	}
+	for {
+		a, b := pt(true), pt(true)
+		if dx, dy := a[0]-b[0], a[1]-b[1]; dx*dx+dy*dy < 16 {
+			continue
+		}
+		var p latgeo.LPath
+		if r.Intn(3) == 0 {
+			mid, e := [2]int{(a[0] + b[0]) / 2, (a[1] + b[1]) / 2}, pt(false)
+			if cross2(a, b, e) == 0 {
+				continue
+			}
+			p = latgeo.LPath{{b, a, mid, e}}
+		} else {
+			c1, d := pt(false), pt(false)
+			if cross2(a, b, c1) == 0 || cross2(a, b, d) == 0 {
+				continue
+			}
+			second := latgeo.LContour{b, a, d}
+			if r.Intn(2) == 0 {
+				second = latgeo.LContour{a, b, d}
+			}
+			p = latgeo.LPath{{a, b, c1}, second}
+		}
+		var q latgeo.LPath
+		for t := 0; t < 1+r.Intn(3); t++ {
+			for try := 0; try < 200; try++ {
+				u, v, w := pt(false), pt(false), pt(false)
+				if properCross2(a, b, u, v) && properCross2(a, b, u, w) && cross2(u, v, w) != 0 {
+					q = append(q, latgeo.LContour{u, v, w})
+					break
+				}
+			}
+		}
+		if len(q) == 0 {
+			continue
+		}
+		if r.Intn(2) == 0 {
+			return q, p
+		}
+		return p, q
+	}
+}
+
 func (d Driver) traces(c *core.Ctx) {
 	d.tracesN(c, sceneN, c.Pick(300, 6000), "scene", func(r *rand.Rand) (latgeo.LPath, latgeo.LPath) { return randScenePath(r), randScenePath(r) })
 	d.tracesN(c, bandN, c.Pick(24, 400), "bands", bandScene)
 	d.tracesN(c, bandN, c.Pick(40, 600), "plate", plateScene)
 	d.tracesN(c, bandN, c.Pick(40, 600), "islands", islandScene)
+	d.tracesN(c, 16, c.Pick(2500, 10000), "fixed", fixedScene)
 }
 
 func (d Driver) tracesN(c *core.Ctx, latticeN, n int, space string, gen func(r *rand.Rand) (latgeo.LPath, latgeo.LPath)) {
@@ -854,6 +916,9 @@ func (d Driver) tracesN(c *core.Ctx, latticeN, n int, space string, gen func(r *
 	}
 	pts := latgeo.SamplePts(hdr.Samples, hdr.S, latgeo.Identity)
 	r := rand.New(rand.NewSource(c.Seed*104729 + int64(latticeN) + int64(hash(space))))
+	if space == "fixed" {
+		r = rand.New(rand.NewSource(20260928)) // independent of VERIF_SEED; the quick tier runs a prefix of the thorough tier's scenes
+	}
 	var evs []sceneEv
 	var buf bytes.Buffer
 	enc := json.NewEncoder(&buf)
